@@ -27,6 +27,8 @@ def _parse_hist(out):
             seen.add(body)
             h = json.loads(body)
             res.append([{k: x[k] for k in _FIELDS} for x in h])
+    # TLC's workers print in no particular order: a canonical order makes every later random choice a function of VERIF_SEED alone
+    res.sort(key=lambda h: (len(h), json.dumps(h, sort_keys=True)))
     return res
 
 
